@@ -9,6 +9,10 @@
  *                           ("%zd" | "%s" | "%c%s" | "%c%zd%c"), selected by argument count/type through the macro
  *                           in harness/attrpath/_unit.h.  At most size-1 bytes and a NUL are written, the would-be
  *                           length is returned.  %zd prints its size_t argument as a SIGNED number, as glibc does.
+ *                           (Used by the job of attr_path_len.  attr_path_to_str is NOT within reach: its output buffer
+ *                           is a heap block of symbolic size written at symbolic offsets by every unwound call site --
+ *                           5M variables for a two-character path, out of memory beyond, with this model, with a
+ *                           character-by-character model and with exact-size-class allocation alike.)
  */
 #ifndef XV_ATTRPATH_ENV_H
 #define XV_ATTRPATH_ENV_H
@@ -130,18 +134,21 @@ long strtol(const char *nptr, char **endptr, int base)
 }
 
 /* ---- snprintf */
-struct xv_ap_sink { char *s; size_t n; size_t pos; };
-static void xv_ap_putc(struct xv_ap_sink *k, char c)
+/* The text is first built in a local buffer (concrete offsets), then copied out with ONE memcpy of min(len, size-1)
+ * bytes and one NUL: writing the caller's heap buffer character by character at symbolic offsets, once per unwound call
+ * site, costs millions of variables. */
+#define XV_AP_TXT 300      /* longest text: key of 255 characters + separator; asserted */
+static void xv_ap_putc(char *b, size_t *pos, char c)
 {
-    if (k->n > 0 && k->pos < k->n - 1)
-        k->s[k->pos] = c;
-    k->pos++;
+    __CPROVER_assert(*pos < XV_AP_TXT, "XV snprintf model: text fits the local buffer");
+    b[*pos] = c;
+    (*pos)++;
 }
-static void xv_ap_puts(struct xv_ap_sink *k, const char *str)
+static void xv_ap_puts(char *b, size_t *pos, const char *str)
 {
     size_t i;
-    for (i = 0; str[i] != '\0'; i++)
-        xv_ap_putc(k, str[i]);
+    for (i = 0; str[i] != '\0'; i++)      /* loop xv_ap_puts.0 */
+        xv_ap_putc(b, pos, str[i]);
 }
 static const unsigned long xv_ap_p10[20] = { 1UL, 10UL, 100UL, 1000UL, 10000UL, 100000UL, 1000000UL, 10000000UL, 100000000UL,
     1000000000UL, 10000000000UL, 100000000000UL, 1000000000000UL, 10000000000000UL, 100000000000000UL, 1000000000000000UL,
@@ -153,10 +160,10 @@ static const unsigned long xv_ap_p10[20] = { 1UL, 10UL, 100UL, 1000UL, 10000UL, 
 #ifndef XV_AP_ZD_DIGITS
 #define XV_AP_ZD_DIGITS 20
 #endif
-static void xv_ap_putzd(struct xv_ap_sink *k, size_t v)
+static void xv_ap_putzd(char *b, size_t *pos, size_t v)
 {
     unsigned long mag = v;
-    if ((long)v < 0) { xv_ap_putc(k, '-'); mag = 0UL - v; }
+    if ((long)v < 0) { xv_ap_putc(b, pos, '-'); mag = 0UL - v; }
     __CPROVER_assert(XV_AP_ZD_DIGITS == 20 || mag < xv_ap_p10[XV_AP_ZD_DIGITS < 20 ? XV_AP_ZD_DIGITS : 19], "XV snprintf model: XV_AP_ZD_DIGITS suffices");
     unsigned nd = 1, j;
     for (j = 1; j < XV_AP_ZD_DIGITS; j++)            /* loop xv_ap_putzd.0 */
@@ -166,26 +173,31 @@ static void xv_ap_putzd(struct xv_ap_sink *k, size_t v)
         int d = 0;
         XV_AP_SUB(mag, p, d) XV_AP_SUB(mag, p, d) XV_AP_SUB(mag, p, d) XV_AP_SUB(mag, p, d) XV_AP_SUB(mag, p, d)
         XV_AP_SUB(mag, p, d) XV_AP_SUB(mag, p, d) XV_AP_SUB(mag, p, d) XV_AP_SUB(mag, p, d)
-        xv_ap_putc(k, (char)('0' + d));
+        xv_ap_putc(b, pos, (char)('0' + d));
     }
 }
-static int xv_ap_end(struct xv_ap_sink *k)
+/* copy the text out: at most n-1 bytes and a NUL; returns the would-be length */
+static int xv_ap_end(char *s, size_t n, const char *b, size_t pos)
 {
-    if (k->n > 0)
-        k->s[k->pos < k->n - 1 ? k->pos : k->n - 1] = '\0';
-    __CPROVER_assert(k->pos <= INT_MAX, "XV snprintf model: result fits int");
-    return (int)k->pos;
+    if (n > 0) {
+        size_t w = pos < n - 1 ? pos : n - 1;
+        if (w > 0)
+            memcpy(s, b, w);
+        s[w] = '\0';
+    }
+    __CPROVER_assert(pos <= INT_MAX, "XV snprintf model: result fits int");
+    return (int)pos;
 }
 /* each model checks that the format string at the call site is the one it models (guards against drift of the real text) */
 #define XV_AP_FMT(f, lit) __CPROVER_assert(XV_AP_EQ(f, lit, 0) && XV_AP_EQ(f, lit, 1) && XV_AP_EQ(f, lit, 2) && XV_AP_EQ(f, lit, 3) && XV_AP_EQ(f, lit, 4) && \
         XV_AP_EQ(f, lit, 5) && XV_AP_EQ(f, lit, 6) && XV_AP_EQ(f, lit, 7), "XV snprintf model: format is " lit)
 #define XV_AP_EQ(f, lit, i) ((i) >= sizeof(lit) || (f)[i] == (lit)[(i) < sizeof(lit) ? (i) : 0])
 int xv_ap_snp_zd(char *s, size_t n, const char *f, size_t v)                   /* "%zd" */
-{ XV_AP_FMT(f, "%zd"); struct xv_ap_sink k = { s, n, 0 }; xv_ap_putzd(&k, v); return xv_ap_end(&k); }
+{ XV_AP_FMT(f, "%zd"); char b[XV_AP_TXT]; size_t pos = 0; xv_ap_putzd(b, &pos, v); return xv_ap_end(s, n, b, pos); }
 int xv_ap_snp_s(char *s, size_t n, const char *f, const char *str)             /* "%s" */
-{ XV_AP_FMT(f, "%s"); struct xv_ap_sink k = { s, n, 0 }; xv_ap_puts(&k, str); return xv_ap_end(&k); }
+{ XV_AP_FMT(f, "%s"); char b[XV_AP_TXT]; size_t pos = 0; xv_ap_puts(b, &pos, str); return xv_ap_end(s, n, b, pos); }
 int xv_ap_snp_cs(char *s, size_t n, const char *f, char c, const char *str)    /* "%c%s" */
-{ XV_AP_FMT(f, "%c%s"); struct xv_ap_sink k = { s, n, 0 }; xv_ap_putc(&k, c); xv_ap_puts(&k, str); return xv_ap_end(&k); }
+{ XV_AP_FMT(f, "%c%s"); char b[XV_AP_TXT]; size_t pos = 0; xv_ap_putc(b, &pos, c); xv_ap_puts(b, &pos, str); return xv_ap_end(s, n, b, pos); }
 int xv_ap_snp_czdc(char *s, size_t n, const char *f, char c, size_t v, char d) /* "%c%zd%c" */
-{ XV_AP_FMT(f, "%c%zd%c"); struct xv_ap_sink k = { s, n, 0 }; xv_ap_putc(&k, c); xv_ap_putzd(&k, v); xv_ap_putc(&k, d); return xv_ap_end(&k); }
+{ XV_AP_FMT(f, "%c%zd%c"); char b[XV_AP_TXT]; size_t pos = 0; xv_ap_putc(b, &pos, c); xv_ap_putzd(b, &pos, v); xv_ap_putc(b, &pos, d); return xv_ap_end(s, n, b, pos); }
 #endif
